@@ -23,7 +23,8 @@ Record dst := mk_dst {
 }.
 
 Inductive dev :=
-| EvTxFlag (o : tx_op)
+| EvTxFlag (o : tx_op)                 (* mark closed, wake the writer: independent of the ring content *)
+| EvRegister                           (* register_dispatcher_if_empty *)
 | EvGrow (mx : Z)
 | EvAck (now ack : Z) (sk : option sackbits)
 | EvTrunc
@@ -47,6 +48,11 @@ Definition set_xsegs (st : dst) (sg : segments) : dst :=
 Definition set_xrx (st : dst) (r : rx) : dst :=
   mk_dst (x_tx st) (x_segs st) r (x_lc st) (x_out st) (x_pend st).
 
+(* ring operations whose effect does not depend on the ring content (they commute with the pending
+   truncation) *)
+Definition pend_safe_op (o : tx_op) : bool :=
+  match o with ToMarkClosed | ToWakeWriter | ToDropWriter => true | _ => false end.
+
 (* the receiver's reaction to one ST_DATA message: exactly DP's DDeliver *)
 Definition data_apply (r : rx) (lc seq : Z) (payload : list Z) : rx * Z :=
   let off := seq_sub seq (wadd16 lc 1) in
@@ -60,7 +66,8 @@ Definition data_apply (r : rx) (lc seq : Z) (payload : list Z) : rx * Z :=
 
 Definition dapply (st : dst) (e : dev) : dst :=
   match e with
-  | EvTxFlag o => if is_flag_tx_op o then let '(t, _, _) := tx_step (x_tx st) o in set_xtx st t else st
+  | EvTxFlag o => if pend_safe_op o then let '(t, _, _) := tx_step (x_tx st) o in set_xtx st t else st
+  | EvRegister => if x_pend st =? 0 then set_xtx st (register_dispatcher_if_empty (x_tx st)) else st
   | EvGrow mx => let '(t, _) := grow (x_tx st) mx in set_xtx st t
   | EvAck now ack sk =>
       let '(sg, res) := remove_up_to_ack (x_segs st) now ack sk in
